@@ -1228,11 +1228,30 @@ def _is_pure_small(prog, body):
         return False
     if (body.j.get("ret_ty") or "").startswith(("cw_storage_plus::", "&cw_storage_plus::", "cw_controllers::", "&cw_controllers::")):
         return False  # storage-container constructors are identities of the container, not values
+    c_ = body.__dict__.get("_pure_small")
+    if c_ is not None:
+        return c_
+    writes, reads = [], []
     for bi, t in body.calls():
         nm = call_name(t) or ""
-        if nm.startswith(STORE_TYPES) and nm.split("::")[-1] in STORE_WRITE:
-            return False
-    return True
+        if nm.startswith(STORE_TYPES):
+            if nm.split("::")[-1] in STORE_WRITE:
+                writes.append(bi)
+            else:
+                reads.append(bi)
+    # the VALUE a helper returns is what its reads saw; a helper that also writes (`take_x(storage, id)` =
+    # load + remove + return the loaded record) still has that value as long as none of its reads can run
+    # after one of its writes (a read after a write would see the new state, which the term does not show)
+    ok = True
+    for w in writes:
+        after = set()
+        for s_ in body.succs()[w]:
+            after |= body.reachable(start=s_)
+        if after & (set(reads) | set(writes)):
+            ok = False
+            break
+    body.__dict__["_pure_small"] = ok
+    return ok
 
 
 def _closure_on(clo, arg):
@@ -1293,8 +1312,12 @@ def ok_payload(t, tag="Ok/Some"):
                     vals.append(ok_payload(x[1]))
                 elif x[0] == "__value__":
                     vals.append(x[1])
+                elif (x[0] == "agg" and x[2] in ("Err", "None") and x[1].endswith(("result::Result", "option::Option"))) or (x[0] == "call" and x[1] == "std::ops::FromResidual::from_residual"):
+                    continue  # certainly no payload: does not reach the use
                 else:
                     vals.append(ok_payload(x))
+            if not vals:
+                return intern(("payload", t, tag))
             return intern(Terms._phi(vals))
     if tag != "Ok/Some":
         # payload of a user enum variant: (x as Variant).0
